@@ -213,11 +213,13 @@ def plan(prop, tier, seed):
         for _ in range(n(40, 800)):
             G.append([("hs-hostile", scen.handshake_session(S(), hostile=True, rotations=True))])
         fam(n(30, 500), scen.listener_session, "lsn"); fam(n(15, 300), scen.hs_migrate_session, "hs-migrate")
+        fam(n(60, 1500), scen.inject_session, "inject")
         data(n(5, 40), big_groups=True)
     elif prop == "C10":
         data(n(80, 1200), with_close=True, updates=True); fam(n(40, 600), scen.close_burst_session, "close-burst")
     elif prop == "C11":
         data(n(30, 400)); data(n(15, 150), with_close=True, updates=True); fam(n(10, 100), scen.large_session, "large"); fam(n(12, 200), scen.unit_session, "unit")
+        fam(n(25, 400), scen.inject_session, "inject")
     elif prop == "C12":
         data(n(25, 300)); data(n(15, 150), with_close=True, updates=True); fam(n(10, 150), scen.large_session, "large"); fam(n(10, 100), scen.window_session, "window")
         fam(n(12, 200), scen.unit_session, "unit")
